@@ -48,6 +48,12 @@ pub fn run(ops: &str, annot: &str, imp: &str) {
             }
             def = def && DefaultTradingSchedule::should_trade(&x);
         }
+        // the answer must not depend on what was asked before: jump far ahead, come back to the evening of this day (so
+        // that the next day's first question arrives less than 24 hours after the last one, on another date)
+        let _ = LastBusinessDayTradingSchedule::should_trade(&DateTime::from((n + 40) * 86400 + 43200));
+        if LastBusinessDayTradingSchedule::should_trade(&DateTime::from(n * 86400 + 61200)) != a {
+            same = false;
+        }
         if a {
             out.stats.bump("days_true");
         }
